@@ -160,4 +160,35 @@ for nargs in (1, 2, 3):
                 pr = check(case_args, cases, combos, kind, shuffle, "dict")
                 if pr:
                     finish(True, input=dict(case_args=case_args, cases=cases, combos=combos, result_kind=kind, shuffle=shuffle), observed=pr, tried=tried)
+def check_unsortable(cases):
+    """mixed-type labels cannot be sorted: the grid must still span the union (one slot per distinct value)"""
+    calls = []
+
+    def f(a, b):
+        calls.append((a, b))
+        return f"{a!r}|{b!r}"
+    with quiet():
+        grid = xyz.combo_runner(f, cases=cases, verbosity=0)
+    req = [(c["a"], c["b"]) for c in cases]
+    na, nb = len({c["a"] for c in cases}), len({c["b"] for c in cases})
+    if sorted(map(repr, calls)) != sorted(map(repr, req)):
+        return [f"function called for {calls}, requested {req}"]
+    if len(grid) != na or not all(isinstance(r, tuple) and len(r) == nb for r in grid):
+        return [f"{na} distinct values of a and {nb} of b, but the grid is {grid!r}"]
+    flat = [x for r in grid for x in r]
+    found = sorted(x for x in flat if isinstance(x, str))
+    if found != sorted(f"{a!r}|{b!r}" for a, b in req):
+        return [f"computed results in the grid: {found}"]
+    for r in grid:
+        if len({x.split("|")[0] for x in r if isinstance(x, str)}) > 1:
+            return [f"a row holds results of several values of a: {r!r}"]
+    return None
+
+
+for cs in ([{"a": 1, "b": 10}, {"a": "x", "b": 20}, {"a": 1, "b": 20}],
+           [{"a": None, "b": 1}, {"a": 5, "b": 1}, {"a": None, "b": 2}, {"a": "k", "b": 2}]):
+    tried += 1
+    pr = check_unsortable(cs)
+    if pr:
+        finish(True, input=dict(cases=cs, kind="labels that cannot be sorted"), observed=pr, tried=tried)
 finish(False, tried=tried)
